@@ -562,14 +562,28 @@ func lateReceive(id string, seed uint64) runner.Result {
 	return res
 }
 
+// wrapStream / wrapHandler: a middleware in front of the mux that hands it a wrapped stream, as
+// tracing or metrics middleware does. What the mux does must not depend on the stream's concrete type.
+type wrapStream struct{ drpc.Stream }
+
+type wrapHandler struct{ h drpc.Handler }
+
+func (w wrapHandler) HandleRPC(stream drpc.Stream, rpc string) error {
+	return w.h.HandleRPC(wrapStream{stream}, rpc)
+}
+
 // earlyReturn: a streaming handler registered with the real mux reads one message, answers and
-// returns nil ("seen enough") while the client does what a generated stub does: all its sends, the
-// half-close, then the receives. A handler that returns a response and no error must not yield an error
-// (or a call that never ends) at the client, also on a transport without buffering of its own.
+// returns nil ("seen enough") while the client still has messages to send. A handler that returns a
+// response and no error must not yield an error (or a call that never ends) at the client: its sends
+// succeed (what nobody reads is discarded), its receives report the answer and then end-of-stream.
+// Patterns: all sends first, then the half-close and the receives (what a generated stub does), also on
+// a transport without buffering; or one send, the receive of the answer, and only then, when the
+// server's end of stream has arrived, more sends.
 func earlyReturn(id string, seed uint64) runner.Result {
 	r := &payload.SplitMix{S: seed}
 	cfg := prog.GenConfig(r, false)
-	rendezvous := r.Intn(3) != 0
+	interleaved := r.Intn(3) == 0
+	rendezvous := !interleaved && r.Intn(3) != 0
 	if rendezvous {
 		cfg.Net.Cap = 0
 	} else if cfg.Net.Cap == 0 {
@@ -580,45 +594,82 @@ func earlyReturn(id string, seed uint64) runner.Result {
 	if err := mux.Register(&srv{p: p}, desc{}); err != nil {
 		return runner.Violation(id, "register", "Register failed: "+err.Error())
 	}
-	rg := rig.New(rig.Config{Net: cfg.Net, Client: cfg.Client, Server: cfg.Server}, mux)
+	var h drpc.Handler = mux
+	wrapped := r.Intn(2) == 0
+	if wrapped {
+		h = wrapHandler{mux}
+	}
+	rg := rig.New(rig.Config{Net: cfg.Net, Client: cfg.Client, Server: cfg.Server}, h)
 	defer rg.Teardown()
+	rpc := "/svc/Bidi"
+	if r.Intn(2) == 0 {
+		rpc = "/svc/ServerStream" // the mux reads the one request itself; the client sends more than that
+	}
 	nsend := 2 + r.Intn(4)
-	desc := fmt.Sprintf("%s | early-return rendezvous=%v: /svc/Bidi handler reads 1 message, answers, returns nil; client sends %d, half-closes, receives", cfg.Desc, rendezvous, nsend)
+	desc := fmt.Sprintf("%s | early-return rendezvous=%v interleaved=%v middleware=%v: %s handler takes 1 message, answers once, returns nil; client sends %d", cfg.Desc, rendezvous, interleaved, wrapped, rpc, nsend)
 	var got int
+	var sendErrs []string
+	afterFirst := make(chan struct{})
+	goOn := make(chan struct{})
 	op := rig.Go("call", func() (interface{}, error) {
-		st, err := rg.Conn.NewStream(context.Background(), "/svc/Bidi", enc{})
+		st, err := rg.Conn.NewStream(context.Background(), rpc, enc{})
 		if err != nil {
 			return nil, err
 		}
 		defer st.Close()
+		recvOne := func() error {
+			var m Msg
+			if err := st.MsgRecv(&m, enc{}); err != nil {
+				return err
+			}
+			got++
+			return nil
+		}
 		for i := 0; i < nsend; i++ {
 			if err := st.MsgSend(&Msg{B: payload.Make(1, 0, 0, uint32(i), 30)}, enc{}); err != nil {
-				break // the handler is gone: a send may report end-of-stream, the outcome is what the receive says
+				sendErrs = append(sendErrs, fmt.Sprintf("send %d: %s", i, rig.ErrStr(err)))
+				break
+			}
+			if interleaved && i == 0 {
+				if err := recvOne(); err != nil {
+					return nil, err
+				}
+				close(afterFirst)
+				<-goOn
 			}
 		}
 		st.CloseSend()
 		for {
-			var m Msg
-			if err := st.MsgRecv(&m, enc{}); err != nil {
+			if err := recvOne(); err != nil {
 				if rig.Cat(err) == "eof" {
 					return nil, nil
 				}
 				return nil, err
 			}
-			got++
 		}
 	})
+	if interleaved {
+		// the handler has returned and the server's end of stream has arrived before the client sends again
+		if s, _ := census.QuiesceOr(afterFirst, rig.Watchdog); s == "ready" {
+			census.Quiesce(rig.Watchdog)
+		}
+		close(goOn)
+	}
 	if !op.Wait() {
 		_, snap := census.Quiesce(rig.Watchdog)
 		return runner.Violation(id, "error-identity:call-never-returns-after-handler-returned-nil", desc+"\nthe client call is still blocked with the whole process quiescent\n"+census.Dump(census.InDRPC(snap)))
 	}
 	var fails []string
+	closed := rig.IsClosed(rg.Conn.Closed())
 	if op.Err != nil {
 		fails = append(fails, "the handler returned a response and no error but the client got "+rig.ErrStr(op.Err))
 	} else if got != 1 {
 		fails = append(fails, fmt.Sprintf("the client received %d messages, the handler sent 1", got))
 	}
-	if len(fails) == 0 && !rig.IsClosed(rg.Conn.Closed()) {
+	if len(sendErrs) > 0 && !closed {
+		fails = append(fails, "the handler returned no error and the connection is open, but a client send failed: "+strings.Join(sendErrs, "; "))
+	}
+	if len(fails) == 0 && !closed {
 		p.fail, p.k, p.resp = nil, 0, []byte("probe-response")
 		var out Msg
 		probe := rig.Go("probe", func() (interface{}, error) {
@@ -649,7 +700,7 @@ func gen(tier string, seed uint64) []runner.Scenario {
 		i := i
 		id := fmt.Sprintf("calls/%d", i)
 		out = append(out, runner.Scenario{ID: id, Run: func() runner.Result { return scenario(id, payload.Hash(seed, 0xC10, uint64(i))) }})
-		if i%10 == 0 {
+		if i%5 == 0 {
 			id3 := fmt.Sprintf("early-return/%d", i)
 			out = append(out, runner.Scenario{ID: id3, Run: func() runner.Result { return earlyReturn(id3, payload.Hash(seed, 0xC10B, uint64(i))) }})
 		}
